@@ -157,9 +157,12 @@ class GateRun:
         self.classes = set()
         self.samples = []
         self.commands = 0
+        self.replays = []
+        self.current = []
 
     def bad(self, sig, detail):
         self.findings.append((sig, "[config %s] %s" % (self.cfgname, detail)))
+        self.replays.append({"config": self.cfgname, "sequence": list(self.current)})
 
     def run(self, seqs):
         srv = sut.Server(self.binary, server_cfg(self.binary, self.cfgname), hooks=self.hooks)
@@ -190,6 +193,7 @@ class GateRun:
 
     def one(self, srv, obs, tk, seq, base):
         self.cases += 1
+        self.current = list(seq)
         c = Conn(srv, "g")
         au = Auto(self.cfgname, {"taken", "obs"})
         trace = []
@@ -296,7 +300,8 @@ def gate_worker(args):
     except (wire.Closed, wire.Timeout, OSError, RuntimeError) as ex:
         inc = "gate %s: %r" % (cfgname, ex)
     return dict(findings=g.findings, cases=g.cases, classes=[list(map(str, c)) for c in g.classes],
-                samples=g.samples, commands=g.commands, inconclusive=inc, alphabet=na, maxlen=maxlen)
+                samples=g.samples, commands=g.commands, inconclusive=inc, alphabet=na, maxlen=maxlen,
+                replays=g.replays)
 
 
 # ------------------------------------------------------------------ C02: ownership under interleavings
@@ -346,9 +351,12 @@ class OwnRun:
         self.steps = 0
         self.classes = set()
         self.samples = []
+        self.replays = []
+        self.current = ((), ())
 
     def bad(self, sig, detail):
         self.findings.append((sig, "[server password %s] %s" % ("on" if self.pw else "off", detail)))
+        self.replays.append({"scripts": list(self.current[0]), "schedule": list(self.current[1]), "password": bool(self.pw)})
 
     def run(self, jobs):
         cfg = dict(password=sut.password_hash(self.binary, "good") if self.pw else None)
@@ -366,6 +374,7 @@ class OwnRun:
 
     def one(self, srv, obs, names, order):
         self.cases += 1
+        self.current = (names, order)
         scripts = [list(SCRIPTS[n]) for n in names]
         conns = [Conn(srv, "c%d" % i) for i in range(len(scripts))]
         pos = [0] * len(scripts)
@@ -578,4 +587,4 @@ def own_worker(args):
     except (wire.Closed, wire.Timeout, OSError, RuntimeError) as ex:
         inc = "own: %r" % (ex,)
     return dict(findings=o.findings, cases=o.cases, steps=o.steps,
-                classes=[repr(c) for c in o.classes], samples=o.samples, inconclusive=inc)
+                classes=[repr(c) for c in o.classes], samples=o.samples, inconclusive=inc, replays=o.replays)
